@@ -97,6 +97,7 @@ def recreated_class_cases(ctx, only=None):
             try:
                 wrap = (lambda f: property(f)) if member == "property" else (lambda f: f)
                 Base = type(icontract.DBC)("Base", (icontract.DBC,), {"f": wrap(contracted(mk("base"), "base"))})
+                Base = icontract.invariant(named("inv", True, "self"))(Base)
                 ns = {"f": wrap(contracted(mk("sub"), "sub")), "__annotations__": {"v": int}, "v": 0}
                 Sub = type(icontract.DBC)("Sub", (Base,), ns)
                 if how.startswith("dataclass"):
@@ -105,13 +106,14 @@ def recreated_class_cases(ctx, only=None):
                     Sub = rebuild(Sub)
                     if how.endswith("twice"):
                         Sub = rebuild(Sub)
+                o = Sub()
                 del log[:]
-                r = Sub().f if member == "property" else Sub().f(1)
+                r = o.f if member == "property" else o.f(1)
                 got = list(log)
             except BaseException as e:  # noqa
                 got = ("failed", type(e).__name__, str(e)[:140])
             # the base group fails, the sub-class' own group holds; then captures and postconditions, inherited first
-            want = ["base-pre", "sub-pre", "base-cap", "sub-cap", "sub-body", "base-post", "sub-post"]
+            want = ["inv", "base-pre", "sub-pre", "base-cap", "sub-cap", "sub-body", "base-post", "sub-post", "inv"]
             ctx.case(["recreated-class", how, member], True, sample={"directed": label, "evaluated": str(got)[:160]})
             ctx.count("directed:recreated-class-cases")
             if got != want:
